@@ -23,7 +23,6 @@ import (
 	"os"
 	"runtime"
 	"runtime/pprof"
-	"sort"
 	"strconv"
 	"strings"
 	"sync"
@@ -506,12 +505,18 @@ func main() {
 	for i, s := range seeds {
 		sn := observe(s.build())
 		comparisons++
-		for _, b := range sn.invariants() {
+		bad := sn.invariants()
+		for _, b := range bad {
 			run.Violation(b.inv+".in-seed", fmt.Sprintf("%v: %s", s, b.detail), s.String())
 		}
 		seen[fmt.Sprintf("s%d;", i)+sn.digest()] = true
 		states = append(states, state{parent: -1, seed: int8(i)})
-		frontier = append(frontier, len(states)-1)
+		if i%4 == 0 {
+			run.Sample(map[string]interface{}{"history": []string{s.String()}, "table": sn.digest()})
+		}
+		if len(bad) == 0 { // a seed that already violates the statement is reported, not expanded
+			frontier = append(frontier, len(states)-1)
+		}
 	}
 	transitions, reached := 0, 0
 	violStates := 0
@@ -600,21 +605,6 @@ func main() {
 		run.Set(fmt.Sprintf("new_states_at_depth_%d", depth), len(next))
 		frontier = next
 	}
-	// a few written-out states
-	idx := []int{0, 4, 8}
-	for _, i := range idx {
-		sd, evs := history(i)
-		t, _ := replay(sd, evs)
-		run.Sample(map[string]interface{}{"history": describe(sd, evs), "table": observe(t).digest()})
-	}
-	var ks []string
-	for i := len(states) - 1; i >= 0 && len(ks) < 3; i -= len(states)/3 + 1 {
-		sd, evs := history(i)
-		t, _ := replay(sd, evs)
-		run.Sample(map[string]interface{}{"history": describe(sd, evs), "table": observe(t).digest()})
-		ks = append(ks, "")
-	}
-	sort.Strings(ks)
 	run.Set("states", len(states))
 	run.Set("transitions", transitions)
 	run.Set("traces_validated_against_impl", comparisons)
